@@ -31,13 +31,20 @@ def gen_cases(rng, tier):
     for i in range(2 if tier == "quick" else 8):
         ntx = rng.randint(2, 4)
         shape = ",".join(str(rng.choice([1, 2, 3])) for _ in range(ntx))
-        cases.append(f"mode=edit seed={rng.getrandbits(32)} shape={shape} pay={rng.choice([0, 3, 20])} oseed={rng.getrandbits(16)} oshape={rng.choice(['2,1', '1', '1,3'])}")
+        # half of the logs are written by 2-3 writer epochs (the writer is closed and reopened)
+        reopen = ""
+        if i % 2 == 0:
+            pts = sorted(rng.sample(range(1, ntx), min(ntx - 1, rng.randint(1, 2))))
+            reopen = " reopen=" + ",".join(map(str, pts))
+        cases.append(f"mode=edit seed={rng.getrandbits(32)} shape={shape} pay={rng.choice([0, 3, 20])} oseed={rng.getrandbits(16)} oshape={rng.choice(['2,1', '1', '1,3'])}{reopen}")
     for i in range(1 if tier == "quick" else 4):
         ntx = rng.randint(2, 4)
         shape = ",".join(str(rng.choice([1, 2, 3])) for _ in range(ntx))
-        cases.append(f"mode=api seed={rng.getrandbits(32)} shape={shape} pay={rng.choice([0, 3, 20])}")
-    cases.append(f"mode=meta seed={rng.getrandbits(32)} shape=1,2 pay=3 every={29 if tier == 'quick' else 3}")
-    hosts = ["s0,s1,s2,g0,g1,t", "s0,g0,t,s1,s2"] if tier == "quick" else ["s0,s1,s2,g0,g1,t", "s0,g0,t,s1,s2", "s0,s1,g0,t,g1,t,s2", "s0,R,s1,g0,g1,t"]
+        pts = sorted(rng.sample(range(1, ntx), min(ntx - 1, rng.randint(1, 2))))
+        cases.append(f"mode=api seed={rng.getrandbits(32)} shape={shape} pay={rng.choice([0, 3, 20])} reopen={','.join(map(str, pts))}")
+    cases.append(f"mode=meta seed={rng.getrandbits(32)} shape=1,2 pay=3 every={29 if tier == 'quick' else 3} reopen=1")
+    hosts = (["s0,R,s1,s2,g0,g1,t", "s0,g0,t,R,s1,R,s2"] if tier == "quick"
+             else ["s0,s1,s2,g0,g1,t", "s0,g0,t,s1,s2", "s0,s1,g0,t,g1,t,s2", "s0,R,s1,g0,g1,t", "s0,R,s1,R,s2,R,s3", "s0,g0,t,R,s1,g1,t,R,s2"])
     for ops in hosts:
         bits = ",".join(str(rng.randrange(0, 24000)) for _ in range(6 if tier == "quick" else 60))
         cases.append(f"mode=hostedit ops={ops} bits={bits}")
